@@ -674,3 +674,24 @@ M("purity-swapped-args", ["C20"], GEN, "    c_matrix = confusion_matrix(labels, 
 M("normalize-global-std", ["C20"], GEN, "    std = np.std(array, axis=0)", "    std = np.std(array)")
 M("normalize-minmax", ["C20"], GEN, "    norm_array = (array - mean) / std", "    norm_array = (array - mean) / (std + 1)")
 M("acc-len-for-total", ["~C20"], GEN, "    errors[:, 0] /= np.nansum(counts) - counts", "    errors[:, 0] /= len(labels) - counts")
+
+# ---------------------------------------------------------------------------
+# benign refactorings (must stay silent everywhere they are evaluated)
+# ---------------------------------------------------------------------------
+_FIT_W = ("                        if self.pre_computed_distance:\n                            weight = self.pre_distances[self.subgraph.nodes[p].idx][\n"
+          "                                self.subgraph.nodes[q].idx\n                            ]\n                        else:\n"
+          "                            weight = self.distance_fn(\n                                self.subgraph.nodes[p].features,\n"
+          "                                self.subgraph.nodes[q].features,\n                            )\n\n"
+          "                        # The current cost will be the maximum")
+M("benign-fit-weight-helper", ["~C01", "~C02", "~C10", "~C11", "~C15", "~C04", "~C05"], SUP,
+  _FIT_W + " cost between the node's and its weight (arc)\n                        current_cost = np.maximum(h.cost[p], weight)\n\n                        if current_cost < h.cost[q]:\n                            self.subgraph.nodes[q].pred = p\n                            self.subgraph.nodes[\n                                q\n                            ].predicted_label = self.subgraph.nodes[p].predicted_label\n\n                            h.update(q, current_cost)\n\n        self.subgraph.trained = True\n",
+  "                        weight = self._arc_weight(p, q)\n\n                        # The current cost will be the maximum cost between the node's and its weight (arc)\n                        current_cost = np.maximum(h.cost[p], weight)\n\n                        if current_cost < h.cost[q]:\n                            self.subgraph.nodes[q].pred = p\n                            self.subgraph.nodes[\n                                q\n                            ].predicted_label = self.subgraph.nodes[p].predicted_label\n\n                            h.update(q, current_cost)\n\n        self.subgraph.trained = True\n\n    def _arc_weight(self, a, b):\n        if self.pre_computed_distance:\n            return self.pre_distances[self.subgraph.nodes[a].idx][self.subgraph.nodes[b].idx]\n\n        return self.distance_fn(self.subgraph.nodes[a].features, self.subgraph.nodes[b].features)\n")
+M("benign-fit-seed-enumerate", ["~C01", "~C02", "~C04", "~C11"], SUP,
+  "        for i in range(self.subgraph.n_nodes):\n            if self.subgraph.nodes[i].status == c.PROTOTYPE:\n                self.subgraph.nodes[i].pred = c.NIL\n                self.subgraph.nodes[i].predicted_label = self.subgraph.nodes[i].label\n\n                h.cost[i] = 0\n                h.insert(i)\n            else:\n                h.cost[i] = c.FLOAT_MAX\n\n        while not h.is_empty():\n            p = h.remove()\n\n            self.subgraph.idx_nodes.append(p)",
+  "        for i, node in enumerate(self.subgraph.nodes):\n            if node.status == c.PROTOTYPE:\n                node.pred = c.NIL\n                node.predicted_label = node.label\n\n                h.cost[i] = 0\n                h.insert(i)\n            else:\n                h.cost[i] = c.FLOAT_MAX\n\n        while not h.is_empty():\n            p = h.remove()\n\n            self.subgraph.idx_nodes.append(p)")
+M("benign-fit-continue-style", ["~C01", "~C05", "~C11", "~C10"], SUP,
+  "            for q in range(self.subgraph.n_nodes):\n                if p != q:\n                    if h.cost[p] < h.cost[q]:\n                        if self.pre_computed_distance:\n                            weight = self.pre_distances[self.subgraph.nodes[p].idx][\n                                self.subgraph.nodes[q].idx\n                            ]\n                        else:\n                            weight = self.distance_fn(\n                                self.subgraph.nodes[p].features,\n                                self.subgraph.nodes[q].features,\n                            )\n\n                        # The current cost will be the maximum cost between the node's and its weight (arc)\n                        current_cost = np.maximum(h.cost[p], weight)\n\n                        if current_cost < h.cost[q]:\n                            self.subgraph.nodes[q].pred = p\n                            self.subgraph.nodes[\n                                q\n                            ].predicted_label = self.subgraph.nodes[p].predicted_label\n\n                            h.update(q, current_cost)\n\n        self.subgraph.trained = True",
+  "            for q in range(self.subgraph.n_nodes):\n                if p == q or not h.cost[p] < h.cost[q]:\n                    continue\n\n                node_p, node_q = self.subgraph.nodes[p], self.subgraph.nodes[q]\n                if self.pre_computed_distance:\n                    weight = self.pre_distances[node_p.idx][node_q.idx]\n                else:\n                    weight = self.distance_fn(node_p.features, node_q.features)\n\n                current_cost = weight if weight > h.cost[p] else h.cost[p]\n                if not current_cost < h.cost[q]:\n                    continue\n\n                node_q.pred = p\n                node_q.predicted_label = node_p.predicted_label\n                h.update(q, current_cost)\n\n        self.subgraph.trained = True")
+M("benign-heap-last-test", ["~C01", "~C02", "~C05"], SUP,
+  "        while not h.is_empty():\n            p = h.remove()\n\n            self.subgraph.idx_nodes.append(p)",
+  "        while h.last > -1:\n            p = h.remove()\n\n            self.subgraph.idx_nodes.append(p)")
